@@ -163,3 +163,108 @@ def replay(ctx, path):
         raise SystemExit(0)
     print("this replay file records a deterministic sweep case; re-run the check itself to reproduce it")
     raise SystemExit(2)
+
+
+# ------------------------------------------------------------------ proc engine
+def run_proc(ctx, seconds, nreaders=3, ngroups=4):
+    """Real processes, production build (guard off): writers killed with SIGKILL at random instants and
+    restarted, readers attached throughout; quiescent comparisons while no writer is alive."""
+    import random
+    import signal
+    import struct
+    import subprocess
+    import time
+    binary = ctx.build_harness("shmsim", ["shmproc"], None, release=True, target="h-shmproc-rel")["shmproc"]
+    rng = random.Random(ctx.seed)
+    agg = {"kills": 0, "kills_mid_update": 0, "quiescent_checks": 0, "reader_calls": 0, "publication_changes_seen": 0, "restarts": 0, "groups": ngroups, "readers": nreaders * ngroups}
+    viol = []
+    groups = []
+    base = "/dev/shm/cbverif-proc-%d" % os.getpid()
+    os.makedirs(base, exist_ok=True)
+    try:
+        for g in range(ngroups):
+            path = os.path.join(base, "shm%d" % g)
+            readers = [subprocess.Popen([binary, "reader", path, "%d.%d" % (g, r)], stdin=subprocess.PIPE, stdout=subprocess.PIPE, text=True, bufsize=1) for r in range(nreaders)]
+            groups.append({"path": path, "readers": readers, "writer": None, "last_answers": [0] * nreaders})
+        t_end = time.time() + seconds
+        while time.time() < t_end:
+            for grp in groups:
+                if grp["writer"] is None:
+                    grp["writer"] = subprocess.Popen([binary, "writer", grp["path"]], stdout=subprocess.DEVNULL, stderr=subprocess.DEVNULL)
+                    agg["restarts"] += 1
+            time.sleep(rng.choice([0.002, 0.005, 0.01, 0.03, 0.08]))
+            for grp in groups:
+                if rng.random() < 0.6:
+                    w = grp["writer"]
+                    w.send_signal(signal.SIGKILL)
+                    w.wait()
+                    grp["writer"] = None
+                    agg["kills"] += 1
+                    try:
+                        b = open(grp["path"], "rb").read()
+                    except OSError:
+                        continue
+                    if len(b) < 72:
+                        continue
+                    gen = struct.unpack_from("=H", b, 14)[0]
+                    words = struct.unpack_from("=7Q", b, 16)
+                    if gen % 2:
+                        agg["kills_mid_update"] += 1
+                    idx = (words[0] - 1) // 8 if words[0] else 0
+                    complete = gen != 0 and gen % 2 == 0 and all(words[k] == 8 * idx + k + 1 for k in range(5))
+                    # Quiescent: nobody writes. Ask every reader for one snapshot.
+                    for k, r in enumerate(grp["readers"]):
+                        r.stdin.write("Q\n")
+                        r.stdin.flush()
+                    for k, r in enumerate(grp["readers"]):
+                        line = r.stdout.readline().strip()
+                        agg["quiescent_checks"] += 1
+                        if not line.startswith("A "):
+                            viol.append({"sig": "reader-died", "detail": "reader %d of group %s answered %r" % (k, grp["path"], line), "replay": ""})
+                            continue
+                        a = line[2:]
+                        if not a.isdigit():
+                            viol.append({"sig": "proc-torn-or-error", "detail": "with no writer alive (generation %d) reader %d returned %s" % (gen, k, a), "replay": ""})
+                            continue
+                        a = int(a)
+                        if a < grp["last_answers"][k]:
+                            viol.append({"sig": "proc-went-backwards", "detail": "reader %d returned %d after %d" % (k, a, grp["last_answers"][k]), "replay": ""})
+                        if complete and a != idx:
+                            viol.append({"sig": "proc-stale-at-quiescence", "detail": "no writer alive, file holds complete publication %d at generation %d, reader %d returned %d" % (idx, gen, k, a), "replay": ""})
+                        if not complete and gen % 2 and a > idx:
+                            viol.append({"sig": "proc-unpublished", "detail": "writer killed inside publication %d, reader %d returned %d" % (idx, k, a), "replay": ""})
+                        grp["last_answers"][k] = a
+        for grp in groups:
+            if grp["writer"] is not None:
+                grp["writer"].send_signal(signal.SIGKILL)
+                grp["writer"].wait()
+            for r in grp["readers"]:
+                r.stdin.write("E\n")
+                r.stdin.flush()
+            for r in grp["readers"]:
+                try:
+                    out, _ = r.communicate(timeout=20)
+                except subprocess.TimeoutExpired:
+                    r.kill()
+                    viol.append({"sig": "reader-hung", "detail": "a reader process did not finish", "replay": ""})
+                    continue
+                for line in out.splitlines():
+                    if line.startswith("S "):
+                        j = json.loads(line[2:])
+                        agg["reader_calls"] += j["calls"]
+                        agg["reader_error_returns"] = agg.get("reader_error_returns", 0) + j["errors"]
+                        agg["publication_changes_seen"] += j["changes"]
+                        for v in j["violations"]:
+                            viol.append({"sig": "proc-" + v.split(":")[0].split()[1], "detail": v, "replay": ""})
+                if r.returncode != 0:
+                    viol.append({"sig": "reader-crashed", "detail": "a reader process exited with %s" % r.returncode, "replay": ""})
+    finally:
+        import shutil
+        for grp in groups:
+            for pr in grp["readers"] + ([grp["writer"]] if grp["writer"] else []):
+                try:
+                    pr.kill()
+                except Exception:
+                    pass
+        shutil.rmtree(base, ignore_errors=True)
+    return agg, viol
